@@ -301,7 +301,19 @@ pub(crate) fn c06_rabin_step_hint0() {
     step_check::<0, 76, 76, 8, false>(64, 64, 72, 1, 0, 0, 1);
 }
 
-//@ harness: c06_rabin_small_params_a c06_rabin_small_params_b c06_rabin_small_params_c c06_rabin_small_params_d c06_rabin_small_params_e
+//@ harness: c06_rabin_small_params_a c06_rabin_small_params_c c06_rabin_small_params_e
+//@ prop: C06
+//@ tier: quick
+//@ timeout: 2400
+//@ mem: 10
+//@ unwindset: calculate_out_table#0=4; calculate_out_table#1=258; calculate_mod_table#0=258; modulo#0=64
+//@ kernel: chunker::rabin::ChunkIter::next from a valid iterator state with small accepted parameters, check_rabin_params
+//@ bound: accepted parameter triples (avg,min,max) = (64,16,72) with 20 unread look-ahead bytes + 8 stream bytes [minimum below the 64-byte window and below the look-ahead fill]; (32,8,40) with 3 look-ahead + 50 stream bytes [minimum below the window, plenty of data]; (64,64,72) with 20 + 8 bytes [final short chunk]; (64,0,72) with 3 + 10 bytes [minimum size 0, if accepted]; (64,64,72) with 20 + 60 bytes [look-ahead bytes count towards the minimum: more data than max size available]; all bytes symbolic; full reads; one call of next(); the Rabin64 instance has a 2-byte window (hash values are not the subject here, ChunkIter::next's own arithmetic is)
+//@ oracle: no panic (no underflow, no out-of-range slice); the chunk has 1..=max bytes, consists of exactly the next unread bytes, and is >= min unless the stream ended; the rest stays available (look-ahead + reader)
+//@ stub: std::io::Read::read_to_end -> contract model
+//@ assume: parameters are accepted by check_rabin_params (asserted)
+//@ outside: other parameter values (symbolic parameters make every length symbolic: measured out of reach, 25 min)
+//@ harness: c06_rabin_small_params_b c06_rabin_small_params_d
 //@ prop: C06 C18
 //@ tier: quick
 //@ timeout: 2400
@@ -531,11 +543,29 @@ pub(crate) fn c06_rabin_pair_small() { pair_check_w::<0, 24, 3, 21, 24, 0>(1, 16
 //@ harness: c06_rabin_pair_w8
 //@ prop: C06
 //@ tier: quick
-//@ timeout: 3600
+//@ timeout: 2400
 //@ mem: 16
 //@ unwindset: calculate_out_table#0=10; calculate_out_table#1=258; calculate_mod_table#0=258; modulo#0=64
 //@ kernel: as c06_rabin_pair_small with an 8-byte window
-//@ bound: polynomial 0x3DA3358B4DC173, Rabin64 with an 8-byte window (the smallest for which a stale byte is reduced modulo the polynomial into the bits the split mask reads), (avg,min,max)=(16,8,20); two iterators over the same 22 symbolic remaining bytes: A = empty look-ahead + 22 stream bytes, fresh hash state; B = 3 look-ahead + 19 stream bytes after a full window (8) of symbolic stale bytes was slid through its hash; full reads
+//@ bound: polynomial 0x3DA3358B4DC173, Rabin64 with an 8-byte window (the smallest for which a stale byte is reduced modulo the polynomial into the bits the split mask reads), (avg,min,max)=(16,8,20); two iterators over the same 12 symbolic remaining bytes: A = empty look-ahead + 12 stream bytes, fresh hash state; B = 3 look-ahead + 9 stream bytes after a full window (8) of symbolic stale bytes was slid through its hash; full reads
+//@ oracle: as c06_rabin_pair_small
+//@ stub: std::io::Read::read_to_end -> contract model
+//@ assume: ChunkIter invariant between calls: pos <= buf.len()
+//@ outside: as c06_rabin_pair_small; more than 12 remaining bytes (c06_rabin_pair_w8_long, thorough)
+#[kani::proof]
+#[kani::unwind(30)]
+#[kani::stub(std::backtrace::Backtrace::capture, crate::error::verif_harness::stub_backtrace_capture)]
+#[kani::stub(std::io::Read::read_to_end, crate::chunker::rabin::verif_harness::ReadToEndModel::read_to_end)]
+pub(crate) fn c06_rabin_pair_w8() { pair_check_wd::<0, 12, 3, 9, 12, 0>(3, 8, 16, 8, 20); }
+
+//@ harness: c06_rabin_pair_w8_long
+//@ prop: C06
+//@ tier: thorough
+//@ timeout: 3600
+//@ mem: 16
+//@ unwindset: calculate_out_table#0=10; calculate_out_table#1=258; calculate_mod_table#0=258; modulo#0=64
+//@ kernel: as c06_rabin_pair_w8
+//@ bound: as c06_rabin_pair_w8 with 22 remaining bytes (more than max size: forced cut and content-defined cuts up to max), A = 0 + 22, B = 3 + 19
 //@ oracle: as c06_rabin_pair_small
 //@ stub: std::io::Read::read_to_end -> contract model
 //@ assume: ChunkIter invariant between calls: pos <= buf.len()
@@ -544,7 +574,7 @@ pub(crate) fn c06_rabin_pair_small() { pair_check_w::<0, 24, 3, 21, 24, 0>(1, 16
 #[kani::unwind(30)]
 #[kani::stub(std::backtrace::Backtrace::capture, crate::error::verif_harness::stub_backtrace_capture)]
 #[kani::stub(std::io::Read::read_to_end, crate::chunker::rabin::verif_harness::ReadToEndModel::read_to_end)]
-pub(crate) fn c06_rabin_pair_w8() { pair_check_wd::<0, 22, 3, 19, 22, 0>(3, 8, 16, 8, 20); }
+pub(crate) fn c06_rabin_pair_w8_long() { pair_check_wd::<0, 22, 3, 19, 22, 0>(3, 8, 16, 8, 20); }
 
 //@ harness: c06_rabin_pair_small_tail
 //@ prop: C06
